@@ -1,8 +1,21 @@
 package binary
 
 import (
+	"bytes"
 	"io"
 )
+
+// ReadBytes reads exactly n bytes from r, with the same error conventions as
+// io.ReadFull. The buffer grows as data arrives instead of being allocated up
+// front, so that a corrupt length field cannot force a huge allocation.
+func ReadBytes(r io.Reader, n uint32) ([]byte, error) {
+	buf := bytes.Buffer{}
+	bytesRead, err := io.CopyN(&buf, r, int64(n))
+	if err == io.EOF && bytesRead > 0 {
+		err = io.ErrUnexpectedEOF
+	}
+	return buf.Bytes(), err
+}
 
 func ReadU16Big(r io.ByteReader) (uint16, error) {
 	b1, err := r.ReadByte()
